@@ -124,6 +124,30 @@ def run(ctx):
         T.fail("spec", {"kind": "long-ping-run", "pings": len(pings)}, f"{len(want)} pongs and the following message delivered",
                f"{len(writes)} writes, results {res_[:3]}", {"site": "recv_data_frame", "cls": "pong-count-or-content", "long_run": True},
                what="a long run of pings inside one receive call was not answered completely / the call failed")
+    # pings that arrive while the application is in the middle of SENDING a fragmented message (it has written FIN=0 frames and not yet the
+    # last one) are answered at once like any other: control frames may be injected in the middle of a fragmented message (judged directly)
+    for i in range(12 if ctx.tier == "quick" else 120):
+        pings = [lcg_bytes(rng.choice([0, 1, 7, 125]), rng.randrange(1000)) for _ in range(rng.randrange(1, 4))]
+        frames = []
+        for p_ in pings:
+            if rng.random() < 0.5:
+                frames.append((rng.choice([1, 2]), 1, b"data"))
+            frames.append((9, 1, p_))
+        frames.append((1, 1, b"end"))
+        stream = encode_frames(frames)
+        control = i % 2
+        nfrag = 1 + i % 2
+        ops = ["sf:1:0:" + (b"part%d" % k).hex() if k == 0 else "sf:0:0:" + (b"part%d" % k).hex() for k in range(nfrag)] + ["rd1" if control else "rd0"] * (len(frames) + 1)
+        sc = {"fire": 0, "skip": 0, "script": [["D", stream.hex()]], "keys": KEYS, "ops": ops}
+        line, s_ = wsrun.run_impl(sc)
+        T.case(("mid-own-fragmented-send", stream[:48], control, nfrag), nontrivial=True, bucket="mid-own-fragmented-send", sample={"frames": [(f[0], len(f[2])) for f in frames], "line": line[:120]})
+        writes = [x for x in line.split(";io=")[1].split(",") if x.startswith("w")]
+        want = ["w" + digest(pong_wire(p_, KEYS[j + nfrag])) for j, p_ in enumerate(pings)]
+        if writes[nfrag:] != want:
+            T.fail("spec", {"kind": "mid-own-fragmented-send", "stream": stream.hex(), "control": control, "ops": ops}, f"{len(pings)} pongs", f"{len(writes) - nfrag} writes after the fragments: {line[:200]}",
+                   {"site": "recv_data_frame", "cls": "pong-count-or-content", "mid_own_send": True},
+                   what="a ping received while the application was in the middle of sending a fragmented message was not answered with its pong before the receive call went on")
+            break
     # pings that arrive after the client's own send_close() and before the server's close frame are answered like any other
     for i in range(20 if ctx.tier == "quick" else 300):
         pings = [lcg_bytes(rng.choice([0, 1, 7, 125]), rng.randrange(1000)) for _ in range(rng.randrange(1, 4))]
@@ -177,6 +201,12 @@ def replay(ctx, sc):
     stream = bytes.fromhex(sc["stream"])
     if sc.get("kind") == "long-ping-run":
         return {"note": "rerun ./check C07 quick (the scenario is fixed: 1400 pings between two text messages)"}
+    if sc.get("kind") == "mid-own-fragmented-send":
+        line, s_ = wsrun.run_impl({"fire": 0, "skip": 0, "script": [["D", stream.hex()]], "keys": KEYS, "ops": sc["ops"]})
+        sp = parse_specseq(ctx.spec.run(["specseq 1 " + hx(stream)])[0])
+        nfrag = sum(1 for o in sc["ops"] if o.startswith("sf:"))
+        writes = [x for x in line.split(";io=")[1].split(",") if x.startswith("w")]
+        return None if len(writes) == nfrag + len(sp["pongs"]) else {"pongs_owed": len(sp["pongs"]), "writes": len(writes) - nfrag, "line": line[:200]}
     if sc.get("kind") == "after-own-close":
         line, s_ = wsrun.run_impl({"fire": 0, "skip": 0, "script": [["D", stream.hex()]], "keys": KEYS, "ops": sc["ops"]})
         sp = parse_specseq(ctx.spec.run(["specseq 1 " + hx(stream)])[0])
